@@ -758,7 +758,7 @@ pub fn desc_from_json(v: &Value) -> DeviceDescription {
         pdi_control: get_u64(v, "pdi_control", 0x0104) as u16,
         pdi_config: get_u64(v, "pdi_config", 0) as u16,
         version: get_u64(v, "version", 1) as u16,
-        size_kbit: get_u64(v, "size_kbit", 16).clamp(1, 512) as u32,
+        size_kbit: get_u64(v, "size_kbit", 16).clamp(1, 4096) as u32,
         has_general: get_bool(v, "has_general", true),
         pad_byte: get_u64(v, "pad_byte", 0) as u8,
         physical_ports: 0x0033,
@@ -948,6 +948,33 @@ pub fn image_of_case(case: &Value) -> Result<(Vec<u8>, Option<DeviceDescription>
         if let Some(d) = img.get("desc") {
             let desc = desc_from_json(d);
             return Ok((sii_image::encode(&desc), Some(desc)));
+        }
+        // sparse form: {"len": bytes, "fill": byte, "words": [[word address, value], ..], "bytes": [[offset, [..]], ..]}
+        if let Some(len) = img.get("len").and_then(|x| x.as_u64()) {
+            let fill = img.get("fill").and_then(|x| x.as_u64()).unwrap_or(0xFF) as u8;
+            let mut image = vec![fill; len as usize];
+            if let Some(ws) = img.get("words").and_then(|x| x.as_array()) {
+                for w in ws {
+                    let a = w.get(0).and_then(|x| x.as_u64()).unwrap_or(0) as usize * 2;
+                    let v = w.get(1).and_then(|x| x.as_u64()).unwrap_or(0) as u16;
+                    if a + 1 < image.len() {
+                        image[a..a + 2].copy_from_slice(&v.to_le_bytes());
+                    }
+                }
+            }
+            if let Some(bs) = img.get("bytes").and_then(|x| x.as_array()) {
+                for b in bs {
+                    let off = b.get(0).and_then(|x| x.as_u64()).unwrap_or(0) as usize;
+                    if let Some(data) = b.get(1).and_then(|x| x.as_array()) {
+                        for (i, x) in data.iter().enumerate() {
+                            if off + i < image.len() {
+                                image[off + i] = x.as_u64().unwrap_or(0) as u8;
+                            }
+                        }
+                    }
+                }
+            }
+            return Ok((image, None));
         }
     }
     if let Some(d) = case.get("desc") {
